@@ -506,7 +506,35 @@ def strategy(tier: str):
          L('key', '[10.1.2.4]:2222', 'k2')],
     ]
 
-    return st.fixed_dictionaries({
+    # a certificate signed by a CA that IS trusted for the target, with at
+    # most one thing wrong: each verdict of the certificate checks is then
+    # reached on its own (in the general cases an untrusted CA usually masks
+    # the rest)
+    @st.composite
+    def one_defect(draw):
+        defect = draw(pick(['none', 'type', 'expired', 'future', 'principal',
+                            'corrupt', 'revoked-ca']))
+        lines = [L('ca', draw(pick([HOST, '*.example'])), 'ca1')] + \
+            draw(st.lists(line().filter(
+                lambda ln: ln['kind'] not in ('revoked', 'ca')),
+                max_size=2))
+        if defect == 'revoked-ca':
+            lines.append(L('revoked', HOST, 'ca1'))
+        return {'lines': lines, 'shared': [], 'alias': None, 'port': 22,
+                'via': draw(pick(['direct', 'direct', 'tunnel', 'proxy'])),
+                'ca_via': draw(pick(['known_hosts', 'callback'])),
+                'identity': {
+                    'kind': 'cert', 'key': draw(pick(['ku', 'kv'])),
+                    'ca': 'ca1',
+                    'type': 'user' if defect == 'type' else 'host',
+                    'window': defect if defect in ('expired', 'future')
+                    else 'valid',
+                    'principals': 'other' if defect == 'principal'
+                    else draw(pick(['host', 'none', 'both'])),
+                    'corrupt': defect == 'corrupt',
+                    'via_ref': draw(st.booleans())}}
+
+    general = st.fixed_dictionaries({
         'lines': st.tuples(pick(presets),
                            st.lists(line(), min_size=0, max_size=5))
         .map(lambda t: list(t[0]) + t[1]).filter(bool),
@@ -520,6 +548,7 @@ def strategy(tier: str):
         'via': pick(['direct', 'direct', 'direct', 'tunnel', 'proxy']),
         'ca_via': pick(['known_hosts', 'known_hosts', 'callback']),
         'identity': ident})
+    return st.one_of(general, general, general, one_defect())
 
 
 def leak_cases(tier: str):
